@@ -61,7 +61,9 @@ def main():
         return 0
     if a.tier == 'thorough' and not a.no_selftest:
         os.environ['VERIF_SELFTEST'] = '1'
-    code, ev, new, rep = run(a.prop, a.tier, a.root)
+    scratch = a.root is not None and os.path.realpath(a.root) != os.path.realpath(os.environ.get('NUMQI_REPO', '/repo'))
+    code, ev, new, rep = run(a.prop, a.tier, a.root, write=not scratch,
+                             replay_dir=('/dev/shm/numqi_variants/_violations' if scratch else None))
     return code
 
 
